@@ -26,6 +26,7 @@ META = {
 META["explanation"] += '  e2e/*: real index.run (optionally as the second index run of the execution, on another build of the graph with the same segment names) followed by the real view.run -r on its output.'
 META["explanation"] += '  The second contig is called chr1-2 (a dash, and a prefix that is another contig); regions on a contig nothing is aligned to are part of the region lists.'
 META["explanation"] += "  In the run/* harnesses the record of the last node visits it twice, so its offset is listed twice in that node's entry."
+META["explanation"] += '  e2e/index+region/stable-gaf: the end-to-end harness on a stable GAF; one record lies on the first node alone.'
 
 
 class AssocIndex:
@@ -89,6 +90,7 @@ def harnesses(tier):
     hs.append({"id": "run/K2/r3-revisit-contig", "params": {"kind": "run", "k": 2, "regions": 3, "other": True}, "timeout": 1800})
     for prior in (0, 1):
         hs.append({"id": "e2e/index+region/%s" % ("second-graph-in-process" if prior else "first"), "params": {"kind": "e2e", "prior": prior, "k": 0}, "timeout": 900})
+    hs.append({"id": "e2e/index+region/stable-gaf", "params": {"kind": "e2e", "prior": 0, "k": 0, "form": "stable"}, "timeout": 900})
     hs.append({"id": "search/digits", "params": {"kind": "digits", "k": 3}, "timeout": 600})
     if tier == "thorough":
         hs.append({"id": "run/K3/r2", "params": {"kind": "run", "k": 3, "regions": 2}, "timeout": 2400})
@@ -178,7 +180,7 @@ def build_digits():
     return Harness([("sa", "int"), ("sb", "int")], ["0 <= sa <= %d and 0 <= sb <= %d" % (n, n)], case, fuel=40)
 
 
-E2E_WALKS = [">s0>s1", ">s2", ">s1>a1", "<b0"]
+E2E_WALKS = [">s0>s1", ">s2", ">s1>a1", "<b0", ">s0"]
 # the same segment names cut differently (another build of the graph)
 E2E_LAY2 = {"s0": ("chr1", 0, 4, 0), "s1": ("chr1", 4, 8, 0), "s2": ("chr1", 12, 18, 0), "a0": ("hap-A.1", 100, 4, 1), "a1": ("hap-A.1", 110, 10, 1), "b0": ("hap_B#2", 7, 2, 2)}
 
@@ -193,10 +195,10 @@ def build_e2e(params):
     view.run --region on its output"""
     n = len(E2E_WALKS)
 
-    def case(a, b, c0, c1, c2, c3, c4):
+    def case(a, b, c0, c1, c2, c3, c4, c5):
         V, C = M["V"], M["C"]
         e = stubs.env()
-        cookies = [c0, c1, c2, c3, c4]
+        cookies = [c0, c1, c2, c3, c4, c5]
         saved = dict(F.LAY)
         try:
             if params["prior"]:
@@ -204,7 +206,7 @@ def build_e2e(params):
                 F.run_index(recs0, cookies)
                 F.LAY.clear()
                 F.LAY.update(E2E_LAY2)
-            recs = F.records_for("unstable", E2E_WALKS, [(0, 1)] * n)
+            recs = F.records_for(params.get("form", "unstable"), E2E_WALKS, [(0, 1)] * n)
             F.run_index(recs, cookies)
             nodes, want = e2e_want(a, b)
             rt.set_fuel(60)
@@ -226,7 +228,7 @@ def build_e2e(params):
             F.LAY.clear()
             F.LAY.update(saved)
 
-    return Harness([("a", "int"), ("b", "int")] + [("c%d" % i, "int") for i in range(5)], ["0 <= a <= b <= 40 and 0 <= c0 < c1 < c2 < c3 < c4"], case, fuel=60)
+    return Harness([("a", "int"), ("b", "int")] + [("c%d" % i, "int") for i in range(6)], ["0 <= a <= b <= 40 and 0 <= c0 < c1 < c2 < c3 < c4 < c5"], case, fuel=60)
 
 
 def replay_e2e(params, model, wd):
@@ -244,7 +246,7 @@ def replay_e2e(params, model, wd):
             F.LAY.update(lay)
             d = os.path.join(wd, "run%d" % k)
             os.makedirs(d)
-            recs = F.records_for("unstable", E2E_WALKS, [(0, 1)] * n)
+            recs = F.records_for(params.get("form", "unstable"), E2E_WALKS, [(0, 1)] * n)
             gfa, gaf, lines = F.write_real(d, recs)
             I.run(gaf, gfa)
         nodes, want = e2e_want(a, b)
